@@ -18,6 +18,7 @@ import YtkProofs.Resolver
 import YtkProofs.ResolverSem
 import YtkProofs.ResolverTerm
 import YtkProofs.ResolverDiverge
+import YtkProofs.ResolverEval
 
 namespace Ytk.C11
 open Ytk.Resolver
@@ -269,6 +270,43 @@ theorem nonvacuous_balanced_domain :
   simp only [List.mem_cons, List.not_mem_nil, or_false] at h
   rcases h with rfl | rfl <;> decide
 
+/-! ## agreement with a recursive-descent evaluator (YtkProofs/ResolverEval.lean)
+
+  `Tmpl` is the AST of the FLAT fragment of the grammar (`done | lit text rest | ph key rest |
+  phd key default rest`: keys are plain text, defaults and table values are templates of the
+  fragment, table keys are plain text), `render` its token list, `evalT` the reference semantics
+  (known key → evaluated value; unknown key → evaluated default, else verbatim; circular iff the
+  placeholder text is being expanded; the default is evaluated before the key is looked up).
+
+  Full statement (NOT proved): the same for templates whose keys are templates themselves
+  (`ph (key : Tmpl) …`), and the converse direction (the resolver ends ⇒ `evalT` ends).  With
+  nested keys the resolved key text can contain separators that come out of substituted values
+  or of verbatim blocks, so the resolver's split at the FIRST separator of the resolved text no
+  longer follows the AST; an extra hypothesis on the table (separator-free outputs) is needed. -/
+
+/-- `resolve_refines_evalT`, flat fragment: whenever the reference evaluator ends — with a text or
+    with a circular reference — the resolver ends with the SAME result on the rendered template
+    (for every fuel from some point on, for every stack).  Note that the resolver scans an
+    evaluated default a second time; the proof shows that evaluated texts are inert (`Inert`). -/
+theorem resolve_refines_evalT_flat_partial {tt : TTable} (hT : tt.WF) (n : Nat) (t : Tmpl)
+    (st : List Toks) (ht : t.WF) (h : evalT tt n t st ≠ .outOfFuel) :
+    ∃ k, ∀ m, k ≤ m → resolve id m (toTable tt) (render t) st = evalT tt n t st :=
+  (evalT_refines hT n t st _ ht rfl h).1.fuel
+
+/-- same string, or both circular (with the same text) -/
+theorem resolve_refines_evalT_flat_cases_partial {tt : TTable} (hT : tt.WF) (n : Nat) (t : Tmpl)
+    (st : List Toks) (ht : t.WF) :
+    (∀ out, evalT tt n t st = .ok out → Resolves id (toTable tt) (render t) st (.ok out)) ∧
+    (∀ o, evalT tt n t st = .cycle o → Resolves id (toTable tt) (render t) st (.cycle o)) :=
+  ⟨fun _ e => (evalT_refines hT n t st _ ht e (by simp)).1,
+   fun _ e => (evalT_refines hT n t st _ ht e (by simp)).1⟩
+
+/-- the evaluated text of a template contains nothing a further scan would change -/
+theorem evalT_idempotent_partial {tt : TTable} (hT : tt.WF) (n : Nat) (t : Tmpl) (st : List Toks)
+    (ht : t.WF) {out : Toks} (h : evalT tt n t st = .ok out) :
+    Resolves id (toTable tt) out st (.ok out) :=
+  ((evalT_refines hT n t st _ ht h (by simp)).2 out rfl).resolves
+
 /-! ## Non-vacuity and witnesses (norm = id) -/
 
 
@@ -311,6 +349,24 @@ theorem nonvacuous_dup_not_reaches (o : Toks) :
     ⟨10, by decide, by simp⟩
   cases h₁.unique h₂
 
+/-- the flat fragment on a non-trivial instance: `${u:${a}-${u}}|${a}` with a = `x${b:y}`:
+    the reference evaluator gives `xy-${u}|xy`, hence so does the resolver -/
+theorem nonvacuous_evalT :
+    let tt : TTable := [(tA, .lit [.ch 'x'] (.phd [.ch 'b'] (.lit [.ch 'y'] .done) .done))]
+    let t : Tmpl := .phd [.ch 'u'] (.ph tA (.lit [.ch '-'] (.ph [.ch 'u'] .done)))
+      (.lit [.ch '|'] (.ph tA .done))
+    evalT tt 10 t [] = .ok [.ch 'x', .ch 'y', .ch '-', .pre, .ch 'u', .suf, .ch '|', .ch 'x', .ch 'y'] ∧
+    resolveTop id 10 (toTable tt) (render t) =
+      .ok [.ch 'x', .ch 'y', .ch '-', .pre, .ch 'u', .suf, .ch '|', .ch 'x', .ch 'y'] := by
+  decide
+
+/-- … and on a cyclic one: a = `${b:${a}}` -/
+theorem nonvacuous_evalT_cycle :
+    let tt : TTable := [(tA, .phd [.ch 'b'] (.ph tA .done) .done)]
+    evalT tt 10 (.ph tA .done) [] = .cycle tA ∧
+    resolveTop id 10 (toTable tt) (render (.ph tA .done)) = .cycle tA := by
+  decide
+
 /-
   STATUS of the statements of DESIGN §6 C11 that were open:
 
@@ -323,8 +379,10 @@ theorem nonvacuous_dup_not_reaches (o : Toks) :
     (`resolve_terminates_of_finite_reach_partial`), all for every stack.  Not covered: `norm ≠ id`
     (re-lexing of glued delimiter halves) in the balanced instance.
 
-  * resolve_refines_evalT : agreement with the AST evaluator on grammar-generated templates —
-    see below / the harness compares with an independently written Go recursive-descent reference.
+  * resolve_refines_evalT — PROVED on the flat fragment (`resolve_refines_evalT_flat_partial`:
+    plain keys, template defaults, template values), direction evalT ends ⇒ resolver ends with
+    the same result.  Not proved: nested keys; the converse direction.  The harness compares with
+    an independently written Go recursive-descent reference on the full grammar.
 -/
 
 end Ytk.C11
